@@ -8,19 +8,27 @@ import optcommon as oc
 from predicate import predicate as PP
 
 
-def trees_for(payload, for_search=False):
+def full_family():
+    """the deterministic input family of C01: every tree up to 6 nodes over p, q, r and the constants"""
+    return [t for _, t in gen.all_prop_trees(6, ["p", "q", "r"])], [], True
+
+
+def trees_for(payload, for_search=False, flags=False):
     rng = rng_of(payload)
     thorough = payload["tier"] == "thorough" or (for_search and payload.get("deep"))
     n, names = (6, ["p", "q", "r"]) if thorough else (5, ["p", "q"])
     trees = [t for _, t in gen.all_prop_trees(n, names)]
     if thorough and len(trees) > 60000:
         trees = trees[:6000] + rng.sample(trees[6000:], 24000)
+    n_family = len(trees)
     leaves = gen.prop_leaves(["p", "q", "r", "foo"])
     for _ in range(3000 if thorough else 400):
         trees.append(gen.build(gen.random_shape(rng, len(leaves), rng.choice([3, 4, 5, 6])), leaves))
     # shared sub-terms (the same object used twice) and both operand orders
     a = gen.build(gen.random_shape(rng, len(leaves), 2), leaves)
     trees += [PP.AndPredicate(a, a), PP.OrPredicate(a, PP.NotPredicate(a)), PP.XorPredicate(PP.NotPredicate(a), a)]
+    if flags:
+        return trees, [i < n_family for i in range(len(trees))]
     return trees
 
 
@@ -32,12 +40,13 @@ def correspondence(payload):
 
 
 def search(payload):
-    trees = trees_for(payload, for_search=True)
-    return oc.search(trees, [], "C01", payload, assignments=True)
+    trees, family = trees_for(payload, for_search=True, flags=True)
+    return oc.search(trees, [], "C01", payload, assignments=True, family=family)
 
 
 def replay(payload):
     return oc.replay(payload)
 
 
-main({"correspondence": correspondence, "search": search, "replay": replay})
+if __name__ == "__main__":
+    main({"correspondence": correspondence, "search": search, "replay": replay})
